@@ -74,24 +74,50 @@ theorem mod_inner_fits {m a b : Int} (hm : Mult m) (hp : fits128 (a * m)) : fits
     have : a * m ≤ a.tdiv b * b * m := by nlinarith
     omega
 
-theorem mod_eq {m a b : Int} (hm : Mult m) (ha : fits128 a) (hbf : fits128 b) (hb : b ≠ 0) (hp : fits128 (a * m))
-    (hq : fits128 ((a * m).tdiv b)) : mod m a b = some (a.tmod b) := by
-  unfold mod
-  rw [div_eq hbf hb hp hq]
-  simp only
-  have ht : trunc m (fxDiv m a b) = a.tdiv b * m := by
-    rw [trunc_eq hm (show fits128 (fxDiv m a b) from hq)]; unfold fxTrunc fxDiv; rw [nest m a b hm.pos hb]
-  rw [ht, mul_eq hm (mod_inner_fits hm hp)]
-  unfold fxMul
-  have : (b * (a.tdiv b * m)).tdiv m = b * a.tdiv b := by
-    rw [← Int.mul_assoc]; exact Int.mul_tdiv_cancel _ (by have := hm.pos; omega)
-  rw [this]
-  have h1 := Int.tmod_add_tdiv_mul a b
-  have e : a - b * a.tdiv b = a.tmod b := by
-    have : a.tdiv b * b = b * a.tdiv b := Int.mul_comm _ _
-    omega
-  unfold sub
-  rw [e, wrap128_of_fits (fits128_tmod ha)]
+theorem negI_of_nonneg {x : Int} (h0 : 0 ≤ x) : negI x = -x := by
+  unfold negI minRaw; split <;> omega
+
+/-- for a non-negative dividend the truncated remainder is the Euclidean remainder by the magnitude of the divisor -/
+theorem tmod_of_nonneg (a n : Int) (ha : 0 ≤ a) : a.tmod n = a % (if n < 0 then -n else n) := by
+  rw [Int.tmod_eq_emod_of_nonneg ha]
+  split
+  · rw [Int.emod_neg]
+  · rfl
+
+/-- `Int128.Mod` is the truncated remainder for all operands with a non-zero divisor -/
+theorem remI_eq {i n : Int} (hi : fits128 i) (hn : fits128 n) (hn0 : n ≠ 0) : remI i n = i.tmod n := by
+  have hun : toU (if n < 0 then negI n else n) = (if n < 0 then -n else n) := by
+    split
+    · rename_i h; exact toU_negI_of_neg hn h
+    · exact toU_of_nonneg hn (by omega)
+  have hpos : 0 < (if n < 0 then -n else n) := by split <;> omega
+  have hle : (if n < 0 then -n else n) ≤ 170141183460469231731687303715884105728 := by
+    unfold fits128 at hn; split <;> omega
+  unfold remI
+  simp only [hun]
+  by_cases h1 : i < 0
+  · simp only [h1, if_true]
+    rw [toU_negI_of_neg hi h1]
+    have hx0 := Int.emod_nonneg (-i) (Int.ne_of_gt hpos)
+    have hx1 := Int.emod_lt_of_pos (-i) hpos
+    rw [wrap128_of_fits (by unfold fits128; omega), negI_of_nonneg hx0]
+    have e : i.tmod n = -((-i).tmod n) := by rw [Int.neg_tmod]; omega
+    rw [e, tmod_of_nonneg (-i) n (by omega)]
+  · have hi0 : 0 ≤ i := by omega
+    simp only [h1, if_false]
+    rw [toU_of_nonneg hi hi0]
+    have hx0 := Int.emod_nonneg i (Int.ne_of_gt hpos)
+    have hx1 := Int.emod_lt_of_pos i hpos
+    rw [wrap128_of_fits (by unfold fits128; omega), tmod_of_nonneg i n hi0]
+
+/-- **Mod** (`Int128.Mod` of the raw values) is the truncated remainder for EVERY pair of operands with a non-zero
+    divisor -/
+theorem mod_tmod {m a b : Int} (ha : fits128 a) (hbf : fits128 b) (hb : b ≠ 0) : mod m a b = some (a.tmod b) := by
+  unfold mod; rw [if_neg hb, remI_eq ha hbf hb]
+
+/-- the earlier, weaker statement; kept for its users -/
+theorem mod_eq {m a b : Int} (_hm : Mult m) (ha : fits128 a) (hbf : fits128 b) (hb : b ≠ 0) (_hp : fits128 (a * m))
+    (_hq : fits128 ((a * m).tdiv b)) : mod m a b = some (a.tmod b) := mod_tmod ha hbf hb
 
 theorem neg_eq {a : Int} (h : fits128 (-a)) (ha : fits128 a) : neg a = -a := by
   unfold neg negI minRaw; unfold fits128 at *; split <;> omega
